@@ -34,6 +34,8 @@ pub enum H<P: Pay> {
     Hs(Arc<HeaderSlice<(), P>>),
     #[cfg(feature = "full")]
     Swap(ArcSwapAny<Arc<P>>),
+    #[cfg(feature = "full")]
+    UniqDyn(UniqueArc<dyn Tr>),
 }
 
 impl<P: Pay> H<P> {
@@ -50,6 +52,8 @@ impl<P: Pay> H<P> {
             H::Hs(_) => "hs",
             #[cfg(feature = "full")]
             H::Swap(_) => "swap",
+            #[cfg(feature = "full")]
+            H::UniqDyn(_) => "uniqdyn",
         }
     }
 }
@@ -108,6 +112,7 @@ struct W<'s, P: Pay + Send + Sync> {
     light: bool,
     z0: i64,
     last_a: usize,
+    soft: Vec<Viol>,
 }
 
 const NSLOTS: usize = 10;
@@ -140,6 +145,13 @@ pub fn view<P: Pay + Send + Sync>(h: &H<P>) -> R<View> {
                 "with_raw_offset_arc",
                 a.with_raw_offset_arc(|o| OffsetArc::strong_count(o)),
             ));
+            #[cfg(feature = "full")]
+            {
+                use unsize::CoerceUnsize;
+                let bd: ArcBorrow<'_, dyn Tr> = b.unsize(unsize::Coercion!(to dyn Tr));
+                let bits: (usize, usize) = unsafe { std::mem::transmute_copy(&bd) };
+                ensure!(bits.0 == data, "C11", "ptr", "unsized ArcBorrow's data pointer {:#x} is not the value address {:#x}", bits.0, data);
+            }
             let (i2, t2, d2) = rd!(b.get());
             ensure!(
                 (i2, t2, d2) == (id, tag, data) && Arc::as_ptr(a) as usize == data,
@@ -246,6 +258,16 @@ pub fn view<P: Pay + Send + Sync>(h: &H<P>) -> R<View> {
             counts.push(("hs:Arc::count", Arc::count(a)));
         }
         #[cfg(feature = "full")]
+        H::UniqDyn(u) => {
+            if let Err(e) = u.tr_check() {
+                return viol("C01", "live", format!("read through UniqueArc<dyn>: {}", e));
+            }
+            id = u.tr_id();
+            tag = u.tr_tag();
+            data = &**u as *const dyn Tr as *const u8 as usize;
+            heap = None;
+        }
+        #[cfg(feature = "full")]
         H::Swap(c) => {
             let g = shadow::untracked(|| c.load_full());
             let (i, t, d) = rd!(&*g);
@@ -304,6 +326,8 @@ pub fn dup_handle<P: Pay + Send + Sync>(src: &H<P>, r: usize) -> (H<P>, &'static
         },
     },
     H::Uniq(_) => (H::Raw(std::ptr::null()), "none"),
+    #[cfg(feature = "full")]
+    H::UniqDyn(_) => (H::Raw(std::ptr::null()), "none"),
     H::Raw(p) => {
         let b = unsafe { ArcBorrow::from_ptr(*p) };
         match r {
@@ -376,7 +400,19 @@ pub fn conv_handle<P: Pay + Send + Sync>(h: H<P>, r: usize, even: bool) -> (Opti
             drop(x);
             (Some(H::Arc(y)), "uu->arc(clone_arc+drop)")
         }
-        H::Uniq(x) => (Some(H::Arc(x.shareable())), "uniq->arc"),
+        H::Uniq(x) => {
+            #[cfg(feature = "full")]
+            {
+                if r % 2 == 1 {
+                    use unsize::CoerceUnsize;
+                    let d: UniqueArc<dyn Tr> = x.unsize(unsize::Coercion!(to dyn Tr));
+                    return (Some(H::UniqDyn(d)), "uniq->uniqdyn(unsize)");
+                }
+            }
+            (Some(H::Arc(x.shareable())), "uniq->arc")
+        }
+        #[cfg(feature = "full")]
+        H::UniqDyn(x) => (Some(H::Dyn(x.shareable())), "uniqdyn->dyn"),
         H::Raw(p) => match r % 2 {
             0 => (Some(H::Arc(unsafe { Arc::from_raw(p) })), "raw->arc"),
             _ => {
@@ -622,24 +658,26 @@ impl<'s, P: Pay + Send + Sync> W<'s, P> {
                 } else {
                     self.st.counts.bump("count_obs.any");
                 }
-                ensure!(
-                    *c == owners,
-                    "C04",
-                    "count",
-                    "after {}: {} through a {} handle reports {} but {} owning handles exist ({})",
-                    ctx,
-                    name,
-                    kind,
-                    c,
-                    owners,
-                    self.owner_kinds(a, usize::MAX)
-                );
+                if *c != owners {
+                    // observational: record it and keep going, so that the consequences (leak, early
+                    // destruction) are still attributed by the other oracles of this history
+                    let msg = format!(
+                        "after {}: {} through a {} handle reports {} but {} owning handles exist ({})",
+                        ctx,
+                        name,
+                        kind,
+                        c,
+                        owners,
+                        self.owner_kinds(a, usize::MAX)
+                    );
+                    soft_push(&mut self.soft, "C04", "count", msg);
+                }
                 if owners >= 2 && !self.light {
                     let k = format!("{}|{}|{}", ctx.split(' ').next().unwrap_or(""), name, self.owner_kinds(a, usize::MAX));
                     self.st.ctx_sigs.insert(hash64(&k));
                 }
             }
-            if kind == "uniq" {
+            if kind == "uniq" || kind == "uniqdyn" {
                 ensure!(owners == 1, "C03", "uniq", "harness/model: UniqueArc coexists with {} owners", owners);
             }
         }
@@ -1220,7 +1258,14 @@ fn norm<P: Pay>(t: u64) -> u64 {
 }
 
 /// Run one history. Returns the trace on violation.
-pub fn run_one<P: Pay + Send + Sync>(seed: u64, nops: usize, light: bool, st: &mut Stats) -> Result<(), (Viol, Vec<String>)> {
+/// Keep the first observational violation per property tag.
+pub fn soft_push(soft: &mut Vec<Viol>, props: &'static str, oracle: &'static str, msg: String) {
+    if !soft.iter().any(|v| v.props == props) {
+        soft.push(Viol { props, oracle, msg });
+    }
+}
+
+pub fn run_one<P: Pay + Send + Sync>(seed: u64, nops: usize, light: bool, st: &mut Stats) -> Result<(), (Vec<Viol>, Vec<String>)> {
     let id0 = tk::next_id();
     shadow::reset();
     let _ = tk::take_findings();
@@ -1236,6 +1281,7 @@ pub fn run_one<P: Pay + Send + Sync>(seed: u64, nops: usize, light: bool, st: &m
         light,
         z0: tk::z_live(),
         last_a: usize::MAX,
+        soft: Vec::new(),
     };
     let mut res = Ok(());
     for _ in 0..nops {
@@ -1252,8 +1298,10 @@ pub fn run_one<P: Pay + Send + Sync>(seed: u64, nops: usize, light: bool, st: &m
     if w.st.sample.is_empty() || seed % 97 == 0 {
         w.st.sample = w.trace.iter().take(40).cloned().collect();
     }
+    let mut viols = std::mem::take(&mut w.soft);
     let out = match res {
-        Ok(()) => Ok(()),
+        Ok(()) if viols.is_empty() => Ok(()),
+        Ok(()) => Err((viols, std::mem::take(&mut w.trace))),
         Err(v) => {
             // leak whatever is left rather than run destructors on possibly corrupt state
             let t = std::mem::take(&mut w.trace);
@@ -1263,7 +1311,8 @@ pub fn run_one<P: Pay + Send + Sync>(seed: u64, nops: usize, light: bool, st: &m
             for v in w.loose.drain(..) {
                 std::mem::forget(v);
             }
-            Err((v, t))
+            viols.push(v);
+            Err((viols, t))
         }
     };
     drop(w);
